@@ -188,7 +188,7 @@ func runC03(r *rep.R) {
 	}
 	for si, s := range suites {
 		if si%4 == 0 || thorough(r) {
-			histExploreWith(r, "C03", histCfg{Suite: s, InSession: true, Ops: append(append([]int{}, long...), opClose), Horizon: 2, Alphabet: "retry"}, 0, &idx, judge)
+			histExploreWith(r, "C03", histCfg{Suite: s, InSession: true, Ops: append(append([]int{}, long...), opClose), Horizon: 2, Alphabet: "retry", StopOnError: true}, 0, &idx, judge)
 			histExploreWith(r, "C03", histCfg{Suite: s, InSession: true, Ops: append(append([]int{}, long[:40]...), opClose), Horizon: 2, Alphabet: "retry", MenuOps: []int{0, 13, 27, 39}}, 1, &idx, judge)
 		}
 	}
@@ -203,7 +203,7 @@ func runC03(r *rep.R) {
 	for i := 0; i < 66000; i++ {
 		vlong = append(vlong, []int{opGetDeviceID, opSystemGUID, opChassisControl, c03Ops[3]}[i%4])
 	}
-	histExploreWith(r, "C03", histCfg{Suite: suites[0], InSession: true, Ops: append(vlong, opClose), Horizon: 1, Alphabet: "retry"}, 0, &idx, judge)
+	histExploreWith(r, "C03", histCfg{Suite: suites[0], InSession: true, Ops: append(vlong, opClose), Horizon: 1, Alphabet: "retry", StopOnError: true}, 0, &idx, judge)
 	r.Bound("longest_session_commands", 66000)
 	r.Bound("long_session_commands", len(long))
 	r.Bound("suites", len(suites))
@@ -220,6 +220,10 @@ func histExploreWith(r *rep.R, prop string, cfg histCfg, bound int, idx *int64, 
 	}
 	e.Check = func(ch *env.Chooser, obs any) {
 		o := obs.(*histObs)
+		cfg := cfg
+		if o.Truncated > 0 {
+			cfg.Ops = cfg.Ops[:o.Truncated]
+		}
 		fs := judge(cfg, o)
 		if len(fs) == 0 {
 			r.Outcome(histOutcome(o))
